@@ -1,6 +1,9 @@
 (* C01 — virtual-host routing: executable model of vhostTrie (Insert/Match/matchHost/matchPath/
-   splitHostPath) and of the lookup part of Server.serveHTTP. The trie is modelled by the finite
-   map it implements: a list of entries (host key, path key, site), newest first. *)
+   splitHostPath) and of the lookup part of Server.serveHTTP.
+   Two models: (a) the finite map the trie implements — a list of entries (host key, path key,
+   site), newest first; (b) the REAL two-level trie of vhosttrie.go ([vtrie] below: one node type,
+   root edges keyed by host string, host-node edges keyed by string(byte), insertPath/matchPath
+   walking the key byte by byte). C01_Proofs proves (b) refines (a); [judge] runs (b). *)
 Require Import V.Lib V.GoPath V.GoNet V.Gen_C01.
 Open Scope N_scope.
 
@@ -101,10 +104,109 @@ Definition serve (t : list entry) (extra_fallbacks : list bytes) (host_header ur
 (* trimPathPrefix for paths that need no escaping *)
 Fixpoint trim_prefix (s p : bytes) : bytes :=
   if has_prefix s p then skipn (length p) s else s.
+(* trimPathPrefix hands the trimmed text back to url.Parse: a result that starts with "//" is read
+   as "//authority/path" (unless it starts with "///"), so the text up to the next "/" disappears
+   from the path *)
+Fixpoint drop_to_slash (s : bytes) : bytes :=
+  match s with [] => [] | c :: r => if c =? SLASH then s else drop_to_slash r end.
+Definition reparse (t : bytes) : bytes :=
+  match t with
+  | a :: b :: r => if (a =? SLASH) && (b =? SLASH) &&
+                      negb (match r with c :: _ => c =? SLASH | [] => false end)   (* not "///" *)
+                   then drop_to_slash r else t
+  | _ => t
+  end.
 Definition trimmed_path (url_path prefix : bytes) : bytes :=
   if beq prefix [SLASH] then url_path
   else let t := trim_prefix url_path prefix in
-       match t with c :: _ => if c =? SLASH then t else SLASH :: t | [] => [SLASH] end.
+       reparse (match t with c :: _ => if c =? SLASH then t else SLASH :: t | [] => [SLASH] end).
+
+(* ================= the real data structure: vhostTrie ================= *)
+(* type vhostTrie struct { fallbackHosts; edges map[string]*vhostTrie; site *SiteConfig; path string }
+   One node type for both levels, as in Go. A Go map is an association list in which every key
+   occurs at most once (edge_upd never duplicates a key). The root's fallbackHosts is passed
+   separately (only the root's list is ever read). *)
+Inductive vtrie := VNode (site : option (N * bytes)) (edges : list (bytes * vtrie)).
+Definition t_site (t : vtrie) := match t with VNode s _ => s end.
+Definition t_edges (t : vtrie) := match t with VNode _ e => e end.
+Definition empty_trie : vtrie := VNode None [].            (* newVHostTrie() *)
+
+(* ch := string(remainingPath[0]) — a byte converted to string is the UTF-8 encoding of the code
+   point of that value: one byte below 0x80, two bytes from 0x80 up. *)
+Definition edge_key (c : N) : bytes := if c <? 128 then [c] else [192 + c / 64; 128 + c mod 64].
+
+Fixpoint edge_get (k : bytes) (es : list (bytes * vtrie)) : option vtrie :=
+  match es with
+  | [] => None
+  | (k', t) :: r => if beq k' k then Some t else edge_get k r
+  end.
+(* if _, ok := t.edges[k]; !ok { t.edges[k] = newVHostTrie() }; t.edges[k] = f(t.edges[k]) *)
+Fixpoint edge_upd (k : bytes) (f : vtrie -> vtrie) (es : list (bytes * vtrie)) : list (bytes * vtrie) :=
+  match es with
+  | [] => [(k, f empty_trie)]
+  | (k', t) :: r => if beq k' k then (k', f t) :: r else (k', t) :: edge_upd k f r
+  end.
+
+(* insertPath(remainingPath, originalPath, site): structural recursion on the remaining key *)
+Fixpoint insert_path (rem orig : bytes) (site : N) (t : vtrie) {struct rem} : vtrie :=
+  match rem with
+  | [] => VNode (Some (site, orig)) (t_edges t)
+  | c :: r => VNode (t_site t) (edge_upd (edge_key c) (insert_path r orig site) (t_edges t))
+  end.
+
+(* Insert(key, site) *)
+Definition tinsert (root : vtrie) (key : bytes) (site : N) : vtrie :=
+  let '(h, p) := split_host_path key in
+  VNode (t_site root) (edge_upd h (insert_path p p site) (t_edges root)).
+
+Definition tbuild (sites : list (bytes * N)) : vtrie :=
+  fold_left (fun t s => tinsert t (fst s) (snd s)) sites empty_trie.
+
+(* matchHost: exact edge, then the labels replaced by "*" one more each round *)
+Definition tmatch_host (root : vtrie) (host : bytes) : option vtrie :=
+  first_some (fun c => edge_get c (t_edges root)) (host_candidates host).
+
+(* matchPath: walk the edges byte by byte, remember the last node that carries a site *)
+Fixpoint tmatch_path (rem : bytes) (t : vtrie) (longest : option (N * bytes)) : option (N * bytes) :=
+  match rem with
+  | [] => longest
+  | c :: r => match edge_get (edge_key c) (t_edges t) with
+              | None => longest
+              | Some next => tmatch_path r next (match t_site next with Some v => Some v | None => longest end)
+              end
+  end.
+
+(* Match(key): (node.site, node.path) *)
+Definition ttrie_match (root : vtrie) (fallbacks : list bytes) (key : bytes) : option (N * bytes) :=
+  let '(host, path) := split_host_path key in
+  match first_some (tmatch_host root) (host :: fallbacks) with
+  | None => None
+  | Some branch => tmatch_path path branch None
+  end.
+
+Definition tserve (root : vtrie) (extra_fallbacks : list bytes) (host_header url_path : bytes)
+           (proto_major : N) : routed :=
+  let hostname := strip_port host_header in
+  match ttrie_match root (default_fallbacks ++ extra_fallbacks) (hostname ++ url_path) with
+  | Some (s, prefix) => Site s prefix
+  | None => NotFound (if 2 <=? proto_major then 421 else 404)
+  end.
+
+(* the site chains invoked by serveHTTP for a routing outcome: vhost.middlewareChain.ServeHTTP
+   for the one site found; WriteSiteNotFound alone otherwise *)
+Definition handlers_run (r : routed) : list N :=
+  match r with Site s _ => [s] | NotFound _ => [] end.
+
+(* exact lookup in a path trie (used to state the refinement; not part of the Go code) *)
+Fixpoint get (k : bytes) (t : vtrie) : option (N * bytes) :=
+  match k with
+  | [] => t_site t
+  | c :: r => match edge_get (edge_key c) (t_edges t) with Some n => get r n | None => None end
+  end.
+Definition tlookup (root : vtrie) (h p : bytes) : option (N * bytes) :=
+  match edge_get h (t_edges root) with Some b => get p b | None => None end.
+Definition thost_present (root : vtrie) (h : bytes) : bool :=
+  match edge_get h (t_edges root) with Some _ => true | None => false end.
 
 (* ---- declarative specification, used by [judge] on the implementation's own answer ---- *)
 Definition stored_hosts (t : list entry) : list bytes := map e_host t.
@@ -146,11 +248,59 @@ Definition spec_entry (s : bytes * N) : entry :=
   {| e_host := spec_norm_host h; e_path := SLASH :: match rest with Some r => r | None => [] end;
      e_site := snd s |}.
 
+(* ================= the property, stated over the declared site list ================= *)
+(* what a declared address "host[:port][/path]" means: host pattern (case, port and IPv6
+   brackets dropped) and path prefix *)
+Fixpoint upto_slash (s : bytes) : bytes :=
+  match s with [] => [] | c :: r => if c =? SLASH then [] else c :: upto_slash r end.
+Fixpoint after_slash (s : bytes) : bytes :=
+  match s with [] => [] | c :: r => if c =? SLASH then r else after_slash r end.
+Definition addr_host (a : bytes) : bytes := spec_norm_host (upto_slash a).
+Definition addr_path (a : bytes) : bytes := SLASH :: after_slash a.
+Definition at_addr (h p : bytes) (s : bytes * N) : bool :=
+  beq (addr_host (fst s)) h && beq (addr_path (fst s)) p.
+(* the site declared at (h, p); declaring the same address again replaces the earlier site *)
+Definition owner (sites : list (bytes * N)) (h p : bytes) : option N :=
+  option_map snd (find (at_addr h p) (rev sites)).
+Definition host_declared (sites : list (bytes * N)) (h : bytes) : bool :=
+  existsb (fun s => beq (addr_host (fst s)) h) sites.
+(* the patterns that match a host name, most specific first: the name itself, then the name
+   with its first 1, 2, ... labels replaced by "*" *)
+Definition wild (j : nat) (labels : list bytes) : list bytes := repeat [STAR] j ++ skipn j labels.
+Definition patterns (host : bytes) : list bytes :=
+  host :: map (fun j => join [DOT] (wild j (split DOT host))) (seq 1 (length (split DOT host))).
+Definition prefixes_longest_first (p : bytes) : list bytes :=
+  map (fun k => firstn k p) (rev (seq 1 (length p))).
+
+(* the most specific declared pattern of the request host, else of the first fallback host
+   that has one *)
+Definition governing_pattern (sites : list (bytes * N)) (fallbacks : list bytes) (host : bytes)
+  : option bytes :=
+  first_some (fun h => find (host_declared sites) (patterns h)) (host :: fallbacks).
+
+Definition spec (sites : list (bytes * N)) (extra_fallbacks : list bytes)
+           (host_header url_path : bytes) (proto_major : N) : routed :=
+  let key := strip_port host_header ++ url_path in
+  let not_found := NotFound (if 2 <=? proto_major then 421 else 404) in
+  match governing_pattern sites (default_fallbacks ++ extra_fallbacks) (addr_host key) with
+  | None => not_found
+  | Some pat =>
+      (* among that pattern's sites only: the longest declared path that is a byte-wise prefix *)
+      match first_some (fun q => option_map (fun s => (s, q)) (owner sites pat q))
+                       (prefixes_longest_first (addr_path key)) with
+      | Some (s, q) => Site s q
+      | None => not_found
+      end
+  end.
+
 (* ---- case ---- *)
+(* obs_trace: the ids of the sites whose marker middleware ran, in order (so both WHICH site ran
+   and HOW MANY handlers ran are observed); obs_prefix: the "path_prefix" context value the
+   chain saw; obs_path: the URL path the chain saw (after trimPathPrefix) *)
 Inductive case :=
 | CRoute (sites : list (bytes * N)) (extra_fallbacks : list bytes) (host_header url_path : bytes)
          (proto : N) (simple : bool)
-         (obs_site : option N) (obs_status : N) (obs_calls : N) (obs_path : bytes).
+         (obs_trace : list N) (obs_status : N) (obs_prefix obs_path : bytes).
 
 Definition keys_distinct (sites : list (bytes * N)) : bool :=
   let ks := map (fun s => split_host_path (fst s)) sites in
@@ -160,25 +310,44 @@ Definition keys_distinct (sites : list (bytes * N)) : bool :=
       | (h, p) :: r => negb (existsb (fun k => beq (fst k) h && beq (snd k) p) r) && nd r
       end in nd ks.
 
+Definition routed_eqb (a b : routed) : bool :=
+  match a, b with
+  | Site s p, Site s' p' => (s =? s') && beq p p'
+  | NotFound st, NotFound st' => st =? st'
+  | _, _ => false
+  end.
+
 Definition judge (c : case) : N :=
   match c with
-  | CRoute sites xf hh up proto simple os ost ocalls opath =>
-      let t := build sites in
-      let r := serve t xf hh up proto in
+  | CRoute sites xf hh up proto simple otrace ost oprefix opath =>
+      (* the model that runs is the real trie: Insert each site, then serveHTTP's Match *)
+      let r := tserve (tbuild sites) xf hh up proto in
       let agree :=
-        match r, os with
-        | Site s prefix, Some s' => (s =? s') && (ocalls =? 1) &&
-                                    (negb simple || beq (trimmed_path up prefix) opath)
-        | NotFound st, None => (st =? ost) && (ocalls =? 0)
-        | _, _ => false
+        list_beq N.eqb otrace (handlers_run r) &&
+        match r with
+        | Site s prefix => beq prefix oprefix && (ost =? 200) &&
+                           (negb simple || beq (trimmed_path up prefix) opath)
+        | NotFound st => st =? ost
         end in
-      (* spec evaluated on the implementation's answer, on independently normalised keys *)
+      (* what was observed, as a routing outcome *)
+      let obs := match otrace with
+                 | [] => Some (NotFound ost)
+                 | [s] => Some (Site s oprefix)
+                 | _ => None                      (* more than one site's handlers ran *)
+                 end in
+      let os := match otrace with [s] => Some s | _ => None end in
+      let ocalls := N.of_nat (length otrace) in
+      (* spec, part 1: the end-to-end declarative statement (proved equal to the model for all
+         inputs, C01_route_spec) evaluated on the implementation's answer *)
+      let spec1 := match obs with Some o => routed_eqb o (spec sites xf hh up proto) | None => false end in
+      (* spec, part 2: an independently written argmax-style reading over independently
+         normalised keys *)
       let t := map spec_entry sites in
-      let host := spec_norm_host hh in
-      let path := up in
+      let host := spec_norm_host (upto_slash (strip_port hh ++ up)) in
+      let path := SLASH :: after_slash (strip_port hh ++ up) in
       let fallbacks := map spec_norm_host (default_fallbacks ++ xf) in
       let hk := first_some (match_host t) (host :: fallbacks) in
-      let spec :=
+      let spec2 :=
         match os with
         | Some s =>
             (ocalls =? 1) &&
@@ -189,6 +358,7 @@ Definition judge (c : case) : N :=
                                           (host :: fallbacks) with Some h => h | None => host end) k &&
                 (* s owns the longest stored prefix of the path under host key k *)
                 existsb (fun e => beq (e_host e) k && (e_site e =? s) && has_prefix path (e_path e) &&
+                                  beq (e_path e) oprefix &&
                                   forallb (fun e' => negb (beq (e_host e') k && has_prefix path (e_path e'))
                                                      || Nat.leb (length (e_path e')) (length (e_path e))) t) t
             end
@@ -199,5 +369,5 @@ Definition judge (c : case) : N :=
             | Some k => forallb (fun e => negb (beq (e_host e) k && has_prefix path (e_path e))) t
             end
         end in
-      verdict agree spec
+      verdict agree (spec1 && spec2)
   end.
